@@ -112,6 +112,16 @@ def cases(shard):
                         up = gen.recase(toks, "upper", rng)
                         yield "uses", gen.join_tokens(up), {"toks": up, "exts": exts,
                                                             "cmd": name}
+                # the same use with its LAST quoted string ending in backslash-quote and no
+                # quote character after it (later strings become text: blocks): not a string
+                # for a correct lexer - whatever a lexer accepts here is C03/C04's business
+                qi = [i for i, t in enumerate(argtoks) if t[:1] == b'"']
+                if qi and not any(b'"' in t for t in argtoks[qi[-1] + 1:]):
+                    alt = argtoks[:qi[-1]] + [b'"b\\"'] + argtoks[qi[-1] + 1:]
+                    toks = gen.wrap_use(name, alt, list(exts), 0, rng)
+                    if not any(b'"' in t for t in toks[toks.index(alt[qi[-1]]) + 1:]):
+                        yield "uses", gen.join_tokens(toks), {"toks": toks, "exts": exts,
+                                                              "cmd": name, "tail": True}
                 # the same use cut off right after each of its tags (what follows a tag -
                 # its parameter, the positional arguments - omitted): the parser accepts
                 # actions left incomplete, and whatever it accepts is in C03/C04's domain
